@@ -502,6 +502,42 @@ func (env *Env) trCall(x ECall) TV {
 			payload = fmt.Sprintf("(%s %s)", eng.boxFn(so), val)
 		}
 		return TV{T: fmt.Sprintf("(mk-iface %s %s)", eng.typeIDTerm(el), payload), S: "Iface"}
+	case "closureResult":
+		// closureResult(f, a1, ...): the value the function literal bound to parameter f returns on the
+		// arguments, according to its own contract (which must have an ensures `res == E`)
+		mc := fc.closureOfArg(env, args[0])
+		if mc == nil {
+			env.fail("closureResult(%s): not a function literal of the caller", args[0])
+		}
+		cfn := mc.Fn.(*ssa.Function)
+		ccon := eng.byKey[cfn.String()]
+		if ccon == nil {
+			env.fail("closureResult: %s has no contract", cfn)
+		}
+		rname := "res"
+		if len(ccon.Results) > 0 {
+			rname = ccon.Results[0]
+		}
+		cenv := fc.closureEnv(mc, env.st, env.old)
+		for i, p := range cfn.Params {
+			n := p.Name()
+			if i < len(ccon.Params) {
+				n = ccon.Params[i]
+			}
+			if i+1 < len(args) {
+				cenv.vars[n] = env.tr(args[i+1])
+			}
+		}
+		cenv.bound = env.bound
+		for _, c := range ccon.Ensures {
+			if b, ok := c.E.(EBin); ok && b.Op == "==" {
+				if id, ok := b.L.(EIdent); ok && id.Name == rname {
+					fc.topCtx().usedContracts[ccon.Key] = true
+					return cenv.tr(b.R)
+				}
+			}
+		}
+		env.fail("closureResult: %s has no ensures of the form `%s == E`", cfn, rname)
 	case "as":
 		// as("pkg.Type", x): x viewed as a value of the named Go type (same representation)
 		tn := args[0].(EStr).Val
